@@ -362,6 +362,9 @@ def c_perm(ctx, case):
             scale = np.abs(w).max() + 1e-300
             if case["kind"] in ("kmeans", "gmm"):
                 scale += float(np.abs(case["X"]).max()) ** (2 if k in ("variances", "criterion") else 1)
+            elif "ubm" in case and k in ("U", "V", "D"):
+                # subspace entries live in feature units: below 1e-3 of the tolerance unit they are rounding noise
+                scale += 1e-3 * float(np.sqrt(np.mean(np.asarray(case["ubm"]["variances"], float))))
             ctx.close(got[k], w, "%s after %s" % (k, what), rtol=1e-7, atol=1e-9 * scale)
 
 
@@ -390,5 +393,9 @@ def c_own_ubm(ctx, case):
             ctx.discard("cold-start UBM training gave a non-finite model (empty k-means cluster)")
     y = np.asarray(case["y"])
     ctx.note(list(rel) != sorted(rel) and list(y) != sorted(y), case["kind"], "unsorted-labels" if list(y) != sorted(y) else "sorted-labels")
+    # U, V, D live in feature units: an entry far below 1e-12 of the spread of the features is rounding noise (D in
+    # particular may collapse to ~1e-30, where the order of the additions decides every digit)
+    unit = float(np.std(np.asarray(case["frames"], float))) + 1e-300
     for k, w in base.items():
-        ctx.close(other[k], w, "%s after renaming the classes (own UBM)" % k, rtol=1e-7, atol=1e-9 * (np.abs(w).max() + 1e-300))
+        ctx.close(other[k], w, "%s after renaming the classes (own UBM)" % k, rtol=1e-7,
+                  atol=1e-9 * (np.abs(w).max() + 1e-300) + 1e-12 * unit)
